@@ -213,10 +213,36 @@ func (dec *Decoder) decodeInterfacePtr(tag byte, p **interface{}) {
 	*p = &i
 }
 
+// decodeNonEmptyInterface decodes into a destination of an interface type with methods
+// (error, fmt.Stringer ...): such a variable holds a method table next to the value, an
+// interface{} written over it would be called through garbage. The value is decoded as
+// for interface{} and stored only if its type implements t.
+func (dec *Decoder) decodeNonEmptyInterface(t reflect.Type, tag byte, p unsafe.Pointer) {
+	var v interface{}
+	dec.decodeInterface(tag, &v)
+	dest := reflect.NewAt(t, p).Elem()
+	switch {
+	case dec.Error != nil:
+	case v == nil:
+		dest.Set(reflect.Zero(t))
+	case reflect.TypeOf(v).Implements(t):
+		dest.Set(reflect.ValueOf(v))
+	default:
+		dec.Error = CastError{
+			Source:      reflect.TypeOf(v),
+			Destination: t,
+		}
+	}
+}
+
 // interfaceDecoder is the implementation of ValueDecoder for interface{}.
 type interfaceDecoder struct{}
 
 func (valdec interfaceDecoder) Decode(dec *Decoder, p interface{}, tag byte) {
+	if t := reflect.TypeOf(p).Elem(); t.NumMethod() > 0 {
+		dec.decodeNonEmptyInterface(t, tag, reflect2.PtrOf(p))
+		return
+	}
 	dec.decodeInterface(tag, (*interface{})(reflect2.PtrOf(p)))
 }
 
